@@ -16,9 +16,13 @@
      whose offset matches the table; the load-time scan (NewCacheFile) lets a later
      record for the same id free the earlier one; Invalidate only touches memory
      unless the parameter `pi` (persist invalidation) is TRUE, in which case the stream
-     id in the record header is overwritten with the tombstone id; loading a file
-     that ends in a partly written record fails unless `tl` (tolerant load) is TRUE.
-     pi = tl = FALSE is the code as found; pi = tl = TRUE is the repaired design.
+     id in the record header is overwritten with the tombstone id (and a record
+     replaced by a newer Store of the same id is freed the same way - TLC showed that
+     tombstoning invalidated records alone is not enough: Store(0,A) Store(0,A)
+     Invalidate(0) Reopen serves A again); loading a file that ends in a partly
+     written record fails unless `tl` (tolerant load) is TRUE.
+     pi = tl = FALSE is the code as found; pi = tl = TRUE is the repaired design
+     (proposed_fixes/C15-1, C15-2).
 
    All file-layer operations are pure functions on a file-state record so that the
    same definitions are used by the bounded exhaustive check (this module's Spec),
@@ -239,4 +243,7 @@ KnownOpenFail == ~TolerantLoad /\ ~f.ok
 MapRefinement == f.ok => ReadMap(f) = m
 Opens         == f.ok \/ KnownOpenFail
 Accounting    == f.ok => AcctOK(f)
+\* vacuity witness, EXPECTED TO BE VIOLATED (CacheFileMC_witness.cfg): a state whose next Store compacts
+\* lies inside the bound
+NoCompactPending == ~(f.ok /\ NeedsCompact(f))
 =============================================================================
